@@ -106,6 +106,13 @@ def raw_features(maps, n0, nsamp, seed):
     # density-coupled rows get physically consistent magnitudes (sigma ~ rho^(8/3), tau ~ rho^(5/3));
     # rows that an exponential-type map (V4, E) also reads keep O(1) magnitudes (their domain)
     noscale = set(i for m in maps if m["code"] in ("V4", "E") for i in m["idx"].values())
+    scaled = set()      # a row shared by several density-coupled maps is rescaled once, not once per map
+
+    def _scale(j, fac):
+        if j not in scaled:
+            x[j] = np.abs(x[j]) * fac
+            scaled.add(j)
+
     for m in maps:
         if m["code"] in ("SLX", "SLB", "SLT", "SLTW", "SLD"):
             names = [n for n, _ in MAP_SPECS[m["code"]]["idx"]]
@@ -116,15 +123,15 @@ def raw_features(maps, n0, nsamp, seed):
             if m["code"] in ("SLX", "SLB", "SLTW", "SLD"):
                 j = m["idx"]["j"]
                 if j != irho and role[j] == "pos" and j not in noscale:
-                    x[j] = np.abs(x[j]) * rho ** (8.0 / 3) * 10
+                    _scale(j, rho ** (8.0 / 3) * 10)
             if m["code"] in ("SLB", "SLD"):
                 k = m["idx"]["k"]
                 if k != irho and role[k] == "pos" and k not in noscale:
-                    x[k] = np.abs(x[k]) * rho ** (5.0 / 3) * 3
+                    _scale(k, rho ** (5.0 / 3) * 3)
             if m["code"] == "SLT":
                 j = m["idx"]["j"]
                 if j != irho and role[j] == "pos" and j not in noscale:
-                    x[j] = np.abs(x[j]) * rho ** (5.0 / 3) * 3
+                    _scale(j, rho ** (5.0 / 3) * 3)
     return x
 
 
@@ -209,17 +216,20 @@ def list_additive(case, ctx):
     got = pre.copy()
     fl.fill_derivs_(got, dfdy.copy(), x.copy())
     want = pre.copy()
+    mag = np.abs(pre)
     for k, m in enumerate(maps):
         one = np.zeros((n0, ns))
         m.fill_deriv_(one, dfdy[k].copy(), x.copy())
         want += one
+        mag += np.abs(one)
     used = [i for s in case["maps"] for i in set(s["idx"].values())]
     shared = len(used) != len(set(used))
     ctx.event("shared_raw_feature" if shared else "no_shared")
     ctx.event("nmaps=%d" % len(maps))
     if shared:
         ctx.nontrivial([[s["code"], sorted(s["idx"].items())] for s in case["maps"]])
-    ctx.close(got, want, ("additivity",), rtol=1e-12, atol=1e-13)
+    # judged against the size of the summed terms (contributions of opposite sign may cancel)
+    ctx.close((got - want) / (mag + 1e-300), np.zeros_like(got), ("additivity",), rtol=0, atol=1e-12)
     y1 = fl(x.T.copy())
     y2 = np.zeros((len(maps), ns))
     fl.fill_vals_(y2, x.copy())
